@@ -248,7 +248,17 @@ impl IterConfig for StreamIterConfig {
     }
 
     fn extract_last_position(&self, commit: &CommittedEvents) -> Option<u64> {
-        commit.last_stream_version()
+        // The commit may not be filtered yet, only events of this stream carry its versions
+        match commit {
+            CommittedEvents::Single(event) => {
+                (event.stream_id == self.stream_id).then_some(event.stream_version)
+            }
+            CommittedEvents::Transaction { events, .. } => events
+                .iter()
+                .rev()
+                .find(|event| event.stream_id == self.stream_id)
+                .map(|event| event.stream_version),
+        }
     }
 }
 
